@@ -27,6 +27,14 @@ impl Lint for MustUseLint {
         let mut diagnostics = Vec::new();
 
         for (_, function_call_stmt) in scope_manager.function_calls.iter() {
+            // The called name is bound by the script itself: it is not the library's function
+            if scope_manager.references[function_call_stmt.initial_reference]
+                .resolved
+                .is_some()
+            {
+                continue;
+            }
+
             let function_behavior =
                 match standard_library.find_global(&function_call_stmt.call_name_path) {
                     Some(Field {
